@@ -292,6 +292,13 @@ fn create_sut_logged(s: &Suite, cfg: Cfg, tag: &str, log: bool) -> Result<(Sut, 
         let n = shards.len();
         shards.sort();
         shards.dedup();
+        if cfg.same_shard {
+            // fixed hasher seeds, keys chosen to collide (suites::colliding_key): one shard, every time
+            if shards.len() > 1 {
+                return Err("the alphabet keys of a same-shard suite do not share a version-clock shard".into());
+            }
+            return Ok((sut, base));
+        }
         if shards.len() == n {
             return Ok((sut, base));
         }
@@ -373,7 +380,7 @@ pub fn run_path(s: &Suite, hist: &[u16], parent_outs_hash: Option<u64>, verbose:
                 let n = shards.len();
                 shards.sort();
                 shards.dedup();
-                if shards.len() == n || sut.reopen().is_err() {
+                if shards.len() == n || s.cfg.same_shard || sut.reopen().is_err() {
                     break;
                 }
             }
